@@ -162,6 +162,10 @@ func (p *Program) VerifyFunc(fc *FuncContract) (res *FuncResult) {
 		x.axiom(x.evalBool(ce, r))
 	}
 	ce.hypo = false
+	if (fc.Pure || fc.Assigns != "") && !fc.Trusted {
+		ce.env = env
+		fr.frameSpec = x.frameSpecOf(fr, ce, fc)
+	}
 	x.applyUses(ce, fc)
 	// vacuity cover: the preconditions (and type facts) must be satisfiable
 	x.covers = append(x.covers, &Obligation{Name: "cover:requires", Kind: "cover", Guard: x.b.True, Goal: x.b.False, NHyps: len(x.hyps), Text: "preconditions are satisfiable"})
@@ -182,32 +186,7 @@ func (p *Program) VerifyFunc(fc *FuncContract) (res *FuncResult) {
 			resVal = &Val{Typ: f.Signature.Results(), Tup: r.vals}
 		}
 		x.bindResults(pe, f.Signature, resVal)
-		if fc.Pure && !fc.Trusted {
-			// frame: a function declared pure leaves every pre-existing memory cell unchanged
-			var keys []string
-			for k := range r.st.heaps {
-				keys = append(keys, k)
-			}
-			sort.Strings(keys)
-			for _, k := range keys {
-				if strings.HasPrefix(k, "G_") {
-					continue
-				}
-				h1 := r.st.heaps[k]
-				h0 := x.initHeap(k)
-				if h1 == h0 {
-					continue
-				}
-				x.qseq++
-				rv := x.b.BoundVar(fmt.Sprintf("r!f%d", x.qseq), "Int")
-				inner := strings.TrimSuffix(strings.TrimPrefix(x.heapSorts[k], "(Array Int "), ")")
-				body := x.b.Implies(x.b.And(x.b.Cmp("<", x.b.Int(0), rv), x.b.Cmp("<", rv, x.b.Const("alloc0", "Int"))),
-					x.b.Eq(x.b.App("select", inner, h1, rv), x.b.App("select", inner, h0, rv)))
-				x.oblige("frame", fmt.Sprintf("frame(%s)@ret%d", k, ri), r.cond, x.b.Quant("forall", []*smt.Term{rv}, body), r.pos,
-					"declared pure: memory that existed at entry is unchanged ("+k+")", false)
-			}
-		}
-		if !fc.Pure && !fc.Trusted && fc.Assigns != "" {
+		if !fc.Trusted && (fc.Pure || fc.Assigns != "") {
 			x.frameObligations(fr, ce, fc, r, ri)
 		}
 		for i, e := range fc.Ensures {
@@ -714,62 +693,82 @@ func (x *Exec) useAll(ce *CEnv, name string) {
 	x.note("assumes lemma " + name + " in quantified form (proved separately as its own obligation)")
 }
 
+// frameSpec is the parsed `assigns` clause (or `pure`) of the function under contract.
+type frameSpec struct {
+	whole map[string]bool
+	cells map[string][]*assignTarget
+}
+
+func (x *Exec) frameSpecOf(fr *Frame, entry *CEnv, fc *FuncContract) *frameSpec {
+	fs := &frameSpec{whole: map[string]bool{}, cells: map[string][]*assignTarget{}}
+	if fc.Pure {
+		return fs
+	}
+	ce := &CEnv{x: x, fr: fr, st: fr.entry, old: fr.entry, vars: entry.vars, lets: entry.lets, guard: x.b.True, fc: fc, env: entry.env}
+	for _, k := range strings.Fields(strings.ReplaceAll(fc.Assigns, ",", " ")) {
+		if as := x.assignLoc(ce, k); as != nil {
+			fs.cells[as.key] = append(fs.cells[as.key], as)
+			continue
+		}
+		x.registerGhost(k)
+		fs.whole[x.resolveHeapName(ce, k)] = true
+	}
+	return fs
+}
+
+// frameFormula: heap k in state value h1 agrees with its entry value on every
+// location that existed at entry and is not listed. nil if nothing to state.
+func (x *Exec) frameFormula(fs *frameSpec, k string, h1 *smt.Term) *smt.Term {
+	if strings.HasPrefix(k, "G_") || strings.HasPrefix(k, "GA_") || fs.whole[k] || k == "HMlen" {
+		return nil
+	}
+	h0 := x.initHeap(k)
+	if h1 == h0 {
+		return nil
+	}
+	a0 := x.b.Const("alloc0", "Int")
+	x.qseq++
+	rv := x.b.BoundVar(fmt.Sprintf("r!f%d", x.qseq), "Int")
+	inner := strings.TrimSuffix(strings.TrimPrefix(x.heapSorts[k], "(Array Int "), ")")
+	old := x.b.And(x.b.Cmp("<", x.b.Int(0), rv), x.b.Cmp("<", rv, a0))
+	if strings.HasPrefix(k, "HS_") && len(fs.cells[k]) > 0 {
+		jv := x.b.BoundVar(fmt.Sprintf("j!f%d", x.qseq), "Int")
+		es := strings.TrimSuffix(strings.TrimPrefix(inner, "(Array Int "), ")")
+		var notAllowed []*smt.Term
+		for _, as := range fs.cells[k] {
+			notAllowed = append(notAllowed, x.b.Not(x.b.And(x.b.Eq(rv, as.ref), x.b.Eq(jv, as.idx))))
+		}
+		body := x.b.Implies(x.b.And(append([]*smt.Term{old}, notAllowed...)...),
+			x.b.Eq(x.b.App("select", es, x.b.App("select", inner, h1, rv), jv), x.b.App("select", es, x.b.App("select", inner, h0, rv), jv)))
+		return x.b.Quant("forall", []*smt.Term{rv, jv}, body)
+	}
+	var notAllowed []*smt.Term
+	for _, as := range fs.cells[k] {
+		notAllowed = append(notAllowed, x.b.Not(x.b.Eq(rv, as.ref)))
+	}
+	body := x.b.Implies(x.b.And(append([]*smt.Term{old}, notAllowed...)...),
+		x.b.Eq(x.b.App("select", inner, h1, rv), x.b.App("select", inner, h0, rv)))
+	return x.b.Quant("forall", []*smt.Term{rv}, body)
+}
+
 // frameObligations: a function with an `assigns` clause changes, among the
 // memory that existed at entry, only what the clause lists (whole heaps H(T) /
 // HS(T), single cells *p, single elements s[i]).
 func (x *Exec) frameObligations(fr *Frame, entry *CEnv, fc *FuncContract, r *retEdge, ri int) {
-	whole := map[string]bool{}
-	cells := map[string][]*assignTarget{}
-	ce := &CEnv{x: x, fr: fr, st: fr.entry, old: fr.entry, vars: entry.vars, lets: entry.lets, guard: x.b.True, fc: fc}
-	for _, k := range strings.Fields(strings.ReplaceAll(fc.Assigns, ",", " ")) {
-		if as := x.assignLoc(ce, k); as != nil {
-			cells[as.key] = append(cells[as.key], as)
-			continue
-		}
-		x.registerGhost(k)
-		whole[x.resolveHeapName(ce, k)] = true
+	fs := fr.frameSpec
+	if fs == nil {
+		fs = x.frameSpecOf(fr, entry, fc)
 	}
 	var keys []string
 	for k := range r.st.heaps {
 		keys = append(keys, k)
 	}
 	sort.Strings(keys)
-	a0 := x.b.Const("alloc0", "Int")
 	for _, k := range keys {
-		if strings.HasPrefix(k, "G_") || strings.HasPrefix(k, "GA_") || whole[k] {
-			continue
+		if f := x.frameFormula(fs, k, r.st.heaps[k]); f != nil {
+			x.oblige("frame", fmt.Sprintf("frame(%s)@ret%d", k, ri), r.cond, f, r.pos,
+				"assigns: memory that existed at entry is unchanged outside the listed locations ("+k+")", false)
 		}
-		h1 := r.st.heaps[k]
-		h0 := x.initHeap(k)
-		if h1 == h0 {
-			continue
-		}
-		x.qseq++
-		rv := x.b.BoundVar(fmt.Sprintf("r!f%d", x.qseq), "Int")
-		inner := strings.TrimSuffix(strings.TrimPrefix(x.heapSorts[k], "(Array Int "), ")")
-		old := x.b.And(x.b.Cmp("<", x.b.Int(0), rv), x.b.Cmp("<", rv, a0))
-		var body *smt.Term
-		if strings.HasPrefix(k, "HS_") && len(cells[k]) > 0 {
-			jv := x.b.BoundVar(fmt.Sprintf("j!f%d", x.qseq), "Int")
-			es := strings.TrimSuffix(strings.TrimPrefix(inner, "(Array Int "), ")")
-			var notAllowed []*smt.Term
-			for _, as := range cells[k] {
-				notAllowed = append(notAllowed, x.b.Not(x.b.And(x.b.Eq(rv, as.ref), x.b.Eq(jv, as.idx))))
-			}
-			body = x.b.Implies(x.b.And(append([]*smt.Term{old}, notAllowed...)...),
-				x.b.Eq(x.b.App("select", es, x.b.App("select", inner, h1, rv), jv), x.b.App("select", es, x.b.App("select", inner, h0, rv), jv)))
-			x.oblige("frame", fmt.Sprintf("frame(%s)@ret%d", k, ri), r.cond, x.b.Quant("forall", []*smt.Term{rv, jv}, body), r.pos,
-				"assigns: only the listed elements of "+k+" change", false)
-			continue
-		}
-		var notAllowed []*smt.Term
-		for _, as := range cells[k] {
-			notAllowed = append(notAllowed, x.b.Not(x.b.Eq(rv, as.ref)))
-		}
-		body = x.b.Implies(x.b.And(append([]*smt.Term{old}, notAllowed...)...),
-			x.b.Eq(x.b.App("select", inner, h1, rv), x.b.App("select", inner, h0, rv)))
-		x.oblige("frame", fmt.Sprintf("frame(%s)@ret%d", k, ri), r.cond, x.b.Quant("forall", []*smt.Term{rv}, body), r.pos,
-			"assigns: memory that existed at entry is unchanged outside the listed locations ("+k+")", false)
 	}
 }
 
